@@ -5,6 +5,12 @@ from .c13_plan import PROFILE, plans, ASSUME, enum_plans
 
 def run(tier, seed):
     mc, sim = plans(tier)
+    # vacuity guard: with the pre-fix behaviour pinned (an application registered on a running node is not flagged ready although
+    # its peer is) the model violates the monitor
+    from .. import tlc
+    g = nc.mc_run("c13_vac_F13b", "LATE", 4, 1, ["cerok", "addapp"], False, False, 1, ["Inv13"], pinned=["F13b"], timeout=900)
+    if "Inv13" not in g["violated"]:
+        raise tlc.TlcError("vacuity guard failed: Node.tla with F13b pinned satisfies Inv13")
     ck = nc.run_property("C13", tier, seed, "Inv13", PROFILE, mc, sim, 1500 if tier == "thorough" else 240, ASSUME, enum_plan=enum_plans(tier))
     # the free grain: the tables agree with each other after every single thread step, under every interleaving
     th = tier == "thorough"
